@@ -1,8 +1,14 @@
+import SignaloModel.Proofs.BridgeMeanVar
 import SignaloModel.Proofs.DiffIntVarProofs
 /-!
 # C16 — Mean-variance filters: exact mean, variance non-negative and offset-invariant
 
-Property theorems for C16 (statements are printed by `#check`, axioms by `#print axioms`;
+Property theorems for C16 (statements are printed by `#check`, axioms by `#check @DIV.emv_mean_eq
+#check @DIV.smv_mean_eq
+#check @DIV.smv_var_nonneg
+#check @DIV.smv_var_const
+#check @DIV.smv_offset_counterexample
+#print axioms`;
 `bin/check C16` re-elaborates this file on every run and audits the axiom lists).
 -/
 open SignaloModel
@@ -12,3 +18,8 @@ open SignaloModel
 
 #print axioms DIV.emv_var_nonneg
 #print axioms DIV.emv_offset
+#print axioms DIV.emv_mean_eq
+#print axioms DIV.smv_mean_eq
+#print axioms DIV.smv_var_nonneg
+#print axioms DIV.smv_var_const
+#print axioms DIV.smv_offset_counterexample
